@@ -9,7 +9,7 @@ if [ ! -x $V/build/bin/vinstr ] || [ ! -d $V/build/deps/scheduler ]; then
 fi
 scratch=$(mktemp -d /var/tmp/vcheck.XXXXXX)
 trap 'rm -rf "$scratch"' EXIT
-$V/build/bin/vinstr -src $REPO -dst $scratch/rpc -overlay $scratch/overlay.json -stats $scratch/stats.json || exit 2
+$V/build/bin/vinstr -src $REPO -dst $scratch/rpc -overlay $scratch/overlay.json -stats $scratch/stats.json -inject $V/harness/inject/rpc_hooks.go.txt || exit 2
 if [ "$REPO" != "/repo" ]; then
   # the harness module replaces github.com/hslam/rpc by /repo: map the scratch tree onto it
   python3 - "$scratch/overlay.json" "$REPO" <<'PY'
